@@ -524,3 +524,34 @@ def expand_calls(ctx: Context, fn: FunctionInfo, expr: ast.AST | None,
 
     del orig_calls
     return ast.fix_missing_locations(T().visit(_clone(e)))
+
+
+def identity_validator(ctx: Context, fn: FunctionInfo, depth: int = 0) -> bool:
+    """Does every `return` of fn give back fn's own (first non-cls/self)
+    parameter - directly, or through a call `G(<that parameter>)` of another
+    function of the package that is itself such an identity function?"""
+    from sa import norm as _norm
+    if depth > 3:
+        return False
+    params = [p for p in fn.params() if p not in ("cls", "self")]
+    rets = [r for r in fn.body_nodes() if isinstance(r, ast.Return)]
+    if not params or not rets:
+        return False
+    given = params[0]
+    for r in rets:
+        if r.value is None:
+            return False
+        if _norm.canon(fn, r.value) == given:
+            continue
+        v = r.value
+        if isinstance(v, ast.Call):
+            tg = ctx.internal_targets(fn, v)
+            if len(tg) == 1:
+                g = tg[0]
+                gp = [p for p in g.params() if p not in ("cls", "self")]
+                e = passed_expr(v, g, gp[0]) if gp else None
+                if e is not None and _norm.canon(fn, e) == given and \
+                        identity_validator(ctx, g, depth + 1):
+                    continue
+        return False
+    return True
